@@ -44,7 +44,7 @@ ASSUMPTIONS = [
     "(TangentialNormalProjection switches to an axis-aligned tangent there, off by the same amount)",
 ]
 BOUNDS = {
-    "quick": "172 directions; clouds {triangle, quad, L, collinear-triple} x 2 offsets x 3 orders; references {default, e_x, e_y}; "
+    "quick": "172 directions; supplied normals / tangents in 8 lengths 1e-12 .. 1e9; clouds {triangle, quad, L, collinear-triple} x 2 offsets x 3 orders; references {default, e_x, e_y}; "
              "6 angles; 2-d grids {Cartesian 2x2, triangles 2x2}, 1-d grid 3 cells; tnp3: all ordered pairs (n, m) with m in the 124 integer directions; "
              "tnp2: all ordered pairs of the 24 integer + 16 near-axis 2-d directions",
     "thorough": "same as quick plus tnp3 second direction over all 172 directions and num in {None,1,3}",
@@ -55,6 +55,8 @@ CHUNK = 4
 ORTH_TOL = 1e-12
 MAP_TOL = 1e-9
 EPS = [1e-3, 1e-6]
+# length axis for caller-supplied normals / tangents ("any nonzero normal or tangent vector")
+LENGTHS = [1e-12, 1e-9, 1e-6, 1e-3, 1.0, 3.0, 1e3, 1e9]
 ANGLES = [0.0, math.pi / 6, math.pi / 2, math.pi, 2 * math.pi / 3, -math.pi / 3]
 
 
@@ -201,7 +203,7 @@ def _maps(case, out: Outcome):
 
     # ---- plane matrix with the normal given (scaled normals: length must not matter)
     for ref_arg, r in refs:
-        for sc in (1.0, 3.0):
+        for sc in LENGTHS:
             try:
                 R = mg.project_plane_matrix(None, normal=sc * n, reference=None if ref_arg is None else np.array(ref_arg),
                                             check_planar=False)
@@ -247,17 +249,19 @@ def _maps(case, out: Outcome):
                     out.violate("compute_normal raised on a non-collinear planar cloud", error=repr(e), points=pts)
                     out.ev("normal/exception", k)
                 # project_plane_matrix from the points (normal computed inside, planarity asserted)
-                for given in (False, True):
+                first_cloud = cname == "tri" and csc == 1.0 and off == OFFSETS[0] and oi == 0
+                for given, ln in [(False, 1.0)] + [(True, L) for L in (LENGTHS if first_cloud else [1.0])]:
                     try:
-                        R = mg.project_plane_matrix(pts, normal=(n if given else None))
+                        R = mg.project_plane_matrix(pts, normal=(ln * n if given else None))
                     except Exception as e:
                         out.violate("project_plane_matrix raised on a planar cloud", error=repr(e), points=pts,
-                                    normal=(n if given else None))
+                                    normal=(ln * n if given else None))
                         out.ev("plane/cloud/exception", k)
                         continue
                     cls = "rot-bad"
                     if _check_rotation(R, out, "project_plane_matrix(points)", points=pts):
-                        cls = _check_image(R, nh, ez, given, out, "project_plane_matrix(points)", points=pts, normal_given=given)
+                        cls = _check_image(R, nh, ez, given, out, "project_plane_matrix(points)", points=pts, normal_given=given,
+                                           normal_length_factor=ln)
                         if cls != "VIOLATION":
                             loc = R @ pts
                             zdev = float(np.abs(loc[2] - loc[2, 0]).max())
@@ -281,13 +285,16 @@ def _maps(case, out: Outcome):
 
     # ---- normal / tangent projection matrices
     try:
-        N = mg.normal_matrix(normal=n.copy())
-        T = mg.tangent_matrix(normal=n.copy())
-        err = max(
-            float(np.abs(N @ N - N).max()), float(np.abs(T @ T - T).max()), float(np.abs(N + T - np.eye(3)).max()),
-            float(np.abs(N @ nh - nh).max()), float(np.abs(T @ nh).max()), float(np.abs(N - N.T).max()),
-            float(np.abs(T @ _unit(u) - _unit(u)).max()),
-        )
+        err = 0.0
+        for ln in LENGTHS:
+            N = mg.normal_matrix(normal=ln * n)
+            T = mg.tangent_matrix(normal=ln * n)
+            err = max(
+                err,
+                float(np.abs(N @ N - N).max()), float(np.abs(T @ T - T).max()), float(np.abs(N + T - np.eye(3)).max()),
+                float(np.abs(N @ nh - nh).max()), float(np.abs(T @ nh).max()), float(np.abs(N - N.T).max()),
+                float(np.abs(T @ _unit(u) - _unit(u)).max()),
+            )
         if not err <= ORTH_TOL:
             out.violate("normal_matrix/tangent_matrix are not complementary orthogonal projectors", normal=n, N=N, T=T, err=err)
             out.ev("projector/VIOLATION", key("projector"))
@@ -342,10 +349,11 @@ def _maps(case, out: Outcome):
             except Exception as e:
                 out.violate("compute_tangent raised", error=repr(e), points=pts)
                 out.ev("tangent/exception", k)
-            for given in (False, True):
+            first_line = pi_ == 0 and off == OFFSETS[0]
+            for given, ln in [(False, 1.0)] + [(True, L) for L in (LENGTHS if first_line else [2.0])]:
                 for ref_arg, r in (refs if given else refs[:1]):
                     try:
-                        R = mg.project_line_matrix(pts, tangent=(2.0 * t if given else None),
+                        R = mg.project_line_matrix(pts, tangent=(ln * t if given else None),
                                                    reference=None if ref_arg is None else np.array(ref_arg))
                     except Exception as e:
                         out.violate("project_line_matrix raised", error=repr(e), points=pts, tangent_given=given, reference=ref_arg)
@@ -353,7 +361,8 @@ def _maps(case, out: Outcome):
                         continue
                     cls = "rot-bad"
                     if _check_rotation(R, out, "project_line_matrix", points=pts, tangent_given=given, reference=ref_arg):
-                        cls = _check_image(R, th, r, given, out, "project_line_matrix", points=pts, tangent_given=given, reference=ref_arg)
+                        cls = _check_image(R, th, r, given, out, "project_line_matrix", points=pts, tangent_given=given, reference=ref_arg,
+                                           tangent_length_factor=ln)
                         if cls != "VIOLATION":
                             loc = R @ pts
                             other = [i for i in range(3) if r[i] == 0.0]
@@ -542,7 +551,8 @@ def _tnp3(case, out: Outcome):
     seconds = lat + (near if case["second"] == "all" else [])
     nums = [None, 1, 3] if case["second"] == "all" else [None, 2]
     axis_par = int(np.count_nonzero(n)) == 1
-    _check_tnp(n.reshape(3, 1), out, None if axis_par else ("tnp3", tuple(case["n"])), [None, 1, 2])
+    for ln in LENGTHS:
+        _check_tnp((ln * n).reshape(3, 1), out, None if axis_par else ("tnp3", tuple(case["n"]), ln), [None, 1, 2])
     for m in seconds:
         k = None if axis_par else ("tnp3", tuple(case["n"]), tuple(m))
         _check_tnp(np.array([n, np.array(m)]).T.copy(), out, k, nums)
@@ -555,7 +565,8 @@ def _tnp2(case, out: Outcome):
     n = np.array(case["n"], dtype=float)
     lat, near = _dirs2()
     axis_par = int(np.count_nonzero(n)) == 1
-    _check_tnp(n.reshape(2, 1), out, None if axis_par else ("tnp2", tuple(case["n"])), [None, 1, 3])
+    for ln in LENGTHS:
+        _check_tnp((ln * n).reshape(2, 1), out, None if axis_par else ("tnp2", tuple(case["n"]), ln), [None, 1, 3])
     for m in lat + near:
         k = None if axis_par else ("tnp2", tuple(case["n"]), tuple(m))
         _check_tnp(np.array([n, np.array(m)]).T.copy(), out, k, [None, 2])
